@@ -350,7 +350,7 @@ func checkAttrFunction(token pa.FunctionBlock, allowedType string) (out pr.AttrD
 			if !ok {
 				return
 			}
-			typeOrUnit = string(ident2.Value)
+			typeOrUnit = utils.AsciiLower(ident2.Value)
 			fb, isIN := attrFallbacks[typeOrUnit]
 			if !isIN {
 				return
